@@ -14,7 +14,7 @@ ObjectType (+ derived view types) / Property / Link) that are created directly i
 FlatSchema with Object.create_in_schema from a generated *type term*.
 
 Case line grammar (tokens separated by one blank; strings are hex of UTF-8, '-' = empty):
-  D <pv> <inline01> <follow01> <filter> <ty>              describe()
+  D <pv> <inline01> <follow01> <filter> [@<n>] <ty>       describe()  (@n: first view-name number)
   P <pv> <n> (<name> <req01> <ty>)*                        describe_params()
   I <pv> <ty>                                              describe_input_shape() (ty = i-term)
   X <pv> <hexbytes>                                        parse() on raw bytes
@@ -444,7 +444,8 @@ class Builder:
             kw = {}
             if pers:
                 kw['is_persistent'] = True
-            self.schema, r = cls.create(self.schema, element_type=self.ty(el), **kw)
+            elt = self.ty(el)
+            self.schema, r = cls.create(self.schema, element_type=elt, **kw)
             return r
         if tag == 'i':
             _, base, els = t
@@ -820,12 +821,17 @@ def errname(e):
 def do_describe(k):
     pv = parse_pv(k.next())
     inline = k.flag(); follow = k.flag(); flt = k.s()
-    term = p_ty(k)
     b = Builder()
+    if k.t[k.i].startswith('@'):
+        # '@n': start numbering the (compiler-generated, arbitrary) view type names at n
+        b.n = int(k.next()[1:])
+    term = p_ty(k)
     try:
         typ = b.ty(term)
-    except Inconsistent as e:
-        return 'D - \tskip ' + str(e).replace(' ', '_') + '\t-'
+    except RecursionError:
+        raise
+    except Exception as e:          # the schema layer refuses to build this type
+        return 'D - \tskip ' + (type(e).__name__ + ':' + str(e)).replace(' ', '_')[:80] + '\t-'
     schema = b.schema
     vs = immutables.Map(b.view_shapes)
     md = immutables.Map(b.md)
@@ -895,8 +901,10 @@ def do_params(k):
         for _ in range(n):
             nm = k.s(); req = k.flag(); term = p_ty(k)
             params.append((nm, b.ty(term), req))
-    except Inconsistent as e:
-        return 'P - \tskip ' + str(e).replace(' ', '_') + '\t-'
+    except RecursionError:
+        raise
+    except Exception as e:
+        return 'P - \tskip ' + (type(e).__name__ + ':' + str(e)).replace(' ', '_')[:80] + '\t-'
     schema = b.schema
     ob = Observer(schema, b.view_shapes, b.md)
     ops = [(nm, req, ob.ty(t)) for nm, t, req in params]
@@ -968,8 +976,10 @@ def do_input(k):
     b = Builder()
     try:
         typ = b.ty(term)
-    except Inconsistent as e:
-        return 'I - \tskip ' + str(e).replace(' ', '_') + '\t-'
+    except RecursionError:
+        raise
+    except Exception as e:
+        return 'I - \tskip ' + (type(e).__name__ + ':' + str(e)).replace(' ', '_')[:80] + '\t-'
     schema = b.schema
     ob = Observer(schema, b.view_shapes, b.md, b.input_shapes)
     oterm = ob.ty(typ)
